@@ -89,7 +89,7 @@ def contains(t, name):
     return False
 
 
-def roundtrip(ctx, term, env, value):
+def roundtrip(ctx, term, env, value, c=None):
     ctx.current_case = {"term": term, "env": list(env), "value": repr(value)[:600]}
     for nm in ("Rooms", "ValuedRooms", "Grid", "Seq", "Tupl", "OneOf"):
         if contains(term, nm):
@@ -98,7 +98,7 @@ def roundtrip(ctx, term, env, value):
         ctx.count("c15.single_row_or_column")
     mech_tail = ":rooms" if (contains(term, "Rooms") or contains(term, "ValuedRooms")) else ""
     deg = ":1xN" if (env[0] == 1 or env[1] == 1) else ""
-    c = K.build(term)
+    c = c if c is not None else K.build(term)
     try:
         text = PS.serialize_problem(c, value, height=env[0], width=env[1])
     except Exception as e:
@@ -137,6 +137,7 @@ def run(ctx):
     n_terms = 130 if not thorough else 4000
     for t in range(n_terms):
         term = K.gen_top(rng)
+        comb = K.build(term)  # ONE combinator object per term, reused for boards of different sizes (as the puzzle modules do)
         for _ in range(6):
             env = (rng.choice([1, 1, 2, 3, 4, 5, 6]), rng.choice([1, 1, 2, 3, 4, 5, 6]))
             try:
@@ -149,7 +150,7 @@ def run(ctx):
                 if any(r != sorted(r) for r in rooms):
                     ctx.count("c15.rooms_unsorted_cells")
             with ctx.guard(60):
-                roundtrip(ctx, term, env, value)
+                roundtrip(ctx, term, env, value, comb)
         if t < 3:
             ctx.sample({"term": term})
     # all orderings of rooms and of cells within rooms (exhaustive for <= 3 rooms of <= 3 cells on a 2x3 board)
